@@ -440,6 +440,7 @@ theorem frag2_null_invalid : ∀ s : S, frag2 s = true → s.isNullable = false 
   | .strNum _, h, _ => by simp [frag2] at h
   | .strFloat _, h, _ => by simp [frag2] at h
   | .strBytes, h, _ => by simp [frag2] at h
+  | .single _, h, _ => by simp [frag2] at h
 
 theorem frag2_not_option (fname : Str → Str) (vname : J → Str) : ∀ s : S, frag2 s = true → s.isNullable = false →
     (typeOf fname vname s).isOption = false
@@ -455,6 +456,7 @@ theorem frag2_not_option (fname : Str → Str) (vname : J → Str) : ∀ s : S, 
   | .strNum _, h, _ => by simp [frag2] at h
   | .strFloat _, h, _ => by simp [frag2] at h
   | .strBytes, h, _ => by simp [frag2] at h
+  | .single _, h, _ => by simp [frag2] at h
 
 theorem goodWf_frag2 (fname : Str → Str) (vname : J → Str) : ∀ s : S, frag2 s = true → GoodWf fname vname s
   | .str, _ => goodWf_of_good _ _ _ (good_str fname vname)
@@ -471,5 +473,6 @@ theorem goodWf_frag2 (fname : Str → Str) (vname : J → Str) : ∀ s : S, frag
   | .strNum _, h => by simp [frag2] at h
   | .strFloat _, h => by simp [frag2] at h
   | .strBytes, h => by simp [frag2] at h
+  | .single _, h => by simp [frag2] at h
 
 end Oas3.Codec
